@@ -428,6 +428,20 @@ def scenario_deep_angles(exe, workroot):
     return False, "deeply nested '<' handled (exit %d)" % rc
 
 
+def scenario_loop_without_body(exe, workroot):
+    """C06: mod_infinite_loop on a loop keyword that is the last token of a #define must terminate"""
+    d = _tmp(workroot)
+    cfg = _cfg(d, 'mod_infinite_loop = 1\n')
+    for src in (b'#define X do\nint a;\n', b'#define Y while (1)\nint b;\n'):
+        try:
+            rc, out, err = run(exe, ['-c', cfg, '-l', 'C', '-q'], stdin=src, timeout=20)
+        except Exception as e:
+            return True, 'mod_infinite_loop=1 does not terminate on %r (%s)' % (src, type(e).__name__)
+        if rc < 0 or rc >= 124:
+            return True, 'mod_infinite_loop=1 on %r: status %d' % (src, rc)
+    return False, 'mod_infinite_loop terminates on loop keywords without a body'
+
+
 def scenario_lang_leak(exe, workroot):
     d = _tmp(workroot)
     a, b = os.path.join(d, 'A.c'), os.path.join(d, 'B.c')
